@@ -9,6 +9,7 @@ THEOREMS = [
     "Mesa.Cont.C10_legacy_assignment_rule",
     "Mesa.Cont.C10_exp_assignment_rule",
     "Mesa.Cont.C10_wrap_is_periodic_image",
+    "Mesa.Cont.C10_exp_wrap_is_periodic_image",
     "Mesa.Cont.C10_legacy_positions_all_histories",
     "Mesa.Cont.C10_legacy_frame",
     "Mesa.Cont.C10_legacy_positions_inside",
@@ -17,6 +18,13 @@ THEOREMS = [
     "Mesa.Cont.C10_exp_frame",
     "Mesa.Cont.C10_exp_index_maps_consistent",
     "Mesa.Cont.C10_exp_positions_inside",
+    "Mesa.Cont.C10_exp_positions_wellformed",
+    "Mesa.Cont.C10_exp_positions_have_dimension",
+    "Mesa.Cont.C10_exp_last_assignment",
+    "Mesa.Cont.C10_exp_fresh_agent",
+    "Mesa.Cont.C10_exp_every_agent_has_a_row",
+    "Mesa.Cont.C10_legacy_last_assignment",
+    "Mesa.Cont.C10_exp_history_vectors_normalise",
     "Mesa.Cont.C10_legacy_valid_calls_succeed",
     "Mesa.Cont.C10_exp_valid_calls_succeed",
     "Mesa.Cont.C10_exp_iadd_is_assignment",
@@ -56,6 +64,14 @@ THEOREMS = [
     "Mesa.Cont.C10_exp_distance_symmetric",
     "Mesa.Cont.C10_exp_difference_length",
     "Mesa.Cont.C10_exp_difference_rows_length",
+    "Mesa.Cont.C10_exp_distance_is_metric",
+    "Mesa.Cont.C10_legacy_distance_is_metric",
+    "Mesa.Cont.C10_legacy_neighbors_metric",
+    "Mesa.Cont.C10_exp_radius_metric",
+    "Mesa.Cont.C10_exp_k_nearest_metric",
+    "Mesa.Cont.C10_exp_neighbors_in_radius_metric",
+    "Mesa.Cont.C10_legacy_heading_metric",
+    "Mesa.Cont.C10_exp_difference_metric",
     "Mesa.Cont.C18_cont_place_reject_unchanged",
     "Mesa.Cont.C18_cont_move_reject_unchanged",
     "Mesa.Cont.C18_cont_remove_reject_unchanged",
@@ -74,14 +90,13 @@ TRUSTED = [
 ]
 ASSUMPTIONS = [
     "every axis has min < max",
-    "toroidal-metric clauses are stated for points of the space (legacy: min <= x < max, experimental: min <= x <= max)",
     "a ContinuousSpaceAgent is assigned a position before its position is read or queried",
     "experimental agent ids name agent objects: an id is created once (a second `new` of the same id has no counterpart in the code)",
 ]
 RULE = ("random histories over both classes (50/50; 10% from the rejecting-call stream of C18): bounds with negative / non-unit origins and sizes 1/64 .. 15.6, torus on/off, "
         "experimental: 1-D .. 5-D (2-D and 3-D most often) and initial capacities {0,1,2,3,5,50,100}; 4-45 ops from place/new+set, move/set (12% per-axis out of bounds, "
         "coincident and boundary positions), `position += v`, item writes into the returned position, raw writes through the `space.agent_positions` view, references to that view kept across later calls (read and written after re-slicing and re-allocation), the ignored `pos` setter, vectors with one coordinate or with nd-1 / nd+1 coordinates in every call that takes a point (2 % of the ops of spaces with nd >= 2) (experimental), legacy `agent.pos = p` assigned directly by the user (2.5% of the ops, mostly right after a cache-building query, followed by queries at the old and the new position), remove, every agent method on removed agent objects, pos, agents, radius / k-nearest (k in 0..n+1, often n) / neighbour queries incl. on the "
-        "empty space and right after a cached read + move, distances and heading/difference vectors (30% of the toroidal ones exactly half the size apart: the tie of the heading rule); radii aimed at exact agent distances; "
+        "empty space and right after a cached read + move, distances and heading/difference vectors (30% of the toroidal ones exactly half the size apart: the tie of the heading rule); a quarter of all query points anywhere up to two sizes outside the bounds (on a torus: the distance to the nearest periodic image, repair CS3); radii aimed at exact agent distances; "
         "non-trivial = >= 2 agents in the space at some point, a mutation after the first query and a query answer naming an agent; "
         "distinct = distinct op-line sequences (sha1)")
 HEADER_LINES = 1
@@ -167,6 +182,19 @@ def tags(sc, obs):
             if w[0] in ("hread", "hraw") and w[1] in kept:
                 state = "re-allocated-array" if kept[w[1]][0] != reallocs else ("resliced-array" if kept[w[1]][1] != len(live) else "current-array")
                 yield "branch:kept-view-" + ("write" if w[0] == "hraw" else "read") + "-" + state
+        if w0[3] == "1" and o.startswith("ok"):
+            # a query point outside the bounds of a torus: it stands for its periodic image (repair CS3)
+            b = list(map(int, w0[4:8] if kind == "legacy" else w0[5:]))
+            nd = len(b) // 2
+            pts = {"nbrs": [w[1:3]], "dist": [w[1:3], w[3:5]], "heading": [w[1:3], w[3:5]], "radius": [w[1:-1]], "knn": [w[1:-1]],
+                   "dists": [w[1:1 + nd]], "diffs": [w[1:1 + nd]]}.get(w[0], [])
+            for pt in pts:
+                if len(pt) == nd and all(x.lstrip("-").isdigit() for x in pt):
+                    far = [max(b[2 * i] - int(x), int(x) - b[2 * i + 1]) for i, x in enumerate(pt)]
+                    if any(f > 0 for f in far):
+                        yield "branch:torus-query-point-outside-bounds"
+                    if any(2 * f > b[2 * i + 1] - b[2 * i] for i, f in enumerate(far)):
+                        yield "branch:torus-query-point-more-than-half-a-size-outside"
         if o.startswith("err"):
             yield "reject:" + w[0] + ":" + o.split()[1]
         if w[0] in QUERIES + ("diffs", "agents") and not live:
